@@ -5,6 +5,7 @@ package main
 import (
 	"fmt"
 	"math"
+	"math/big"
 
 	"github.com/trajectoryjp/spatial_id_go/v4/common/enum"
 	"github.com/trajectoryjp/spatial_id_go/v4/common/object"
@@ -667,3 +668,158 @@ func init() {
 		}
 	})
 }
+
+// ---- points that are not lattice points ------------------------------------------
+// Coordinates as they come from real data (a few decimals, half metres, feet) and coordinates a
+// hair away from "special" values that are not cell borders of the queried zoom (round degrees,
+// the equator, longitude 0, whole metres).  The harness only ABSTRACTS such a point: it finds,
+// in exact rational arithmetic, the cell of a fine lattice (depth K) that contains it; which voxel
+// of zoom h that is remains the specification's business (PointToVoxel on the lattice cell).
+
+// lonCell: floor((lon + 180) / 360 * 2^K), exactly.
+func lonCell(lon float64, K int64) int64 {
+	x := new(big.Rat).SetFloat64(lon)
+	x.Add(x, big.NewRat(180, 1))
+	x.Mul(x, new(big.Rat).SetFrac(new(big.Int).Lsh(big.NewInt(1), uint(K)), big.NewInt(360)))
+	q := new(big.Int).Div(x.Num(), x.Denom()) // Euclidean division: floor for a positive denominator
+	return q.Int64()
+}
+
+// latCell: the row cell of depth K containing lat, ok=false when lat is too close to a lattice line
+// for float64 to tell (the Mercator row is transcendental).
+func latCell(lat float64, K int64) (int64, bool) {
+	wf := math.Ldexp(mercW(lat), int(K))
+	fl := math.Floor(wf)
+	if wf-fl < 1e-5 || fl+1-wf < 1e-5 {
+		return 0, false
+	}
+	return int64(fl), true
+}
+
+func altCell(alt float64, KA int64) int64 { return int64(math.Floor(math.Ldexp(alt, int(KA-25)))) }
+
+// windowAt returns a window of base zooms (H0, V0) whose origin voxel contains the point.
+func windowAt(lon, lat, alt float64, H0, V0 int64) (Win, bool) {
+	if H0 == 0 && V0 == 0 {
+		return Win{Abs: true}, true
+	}
+	y, ok := latCell(lat, H0)
+	if !ok {
+		return Win{}, false
+	}
+	return Win{H0: H0, X0: lonCell(lon, H0), Y0: y, V0: V0, F0: altCell(alt, V0)}, true
+}
+
+func evPointsReal(t *Tracer, w Win, lons, lats, alts []float64, h, v int64) {
+	K := minI(w.H0+28, 46)
+	if K < w.H0+h+2 {
+		return
+	}
+	KA := minI(w.V0+28, 45)
+	if KA < w.V0+v {
+		return
+	}
+	k, ka := K-w.H0, KA-w.V0
+	pts := make([]*object.Point, len(lons))
+	ps := make([]Pt, len(lons))
+	desc := make([]string, len(lons))
+	for i := range lons {
+		p, err := object.NewPoint(lons[i], lats[i], alts[i])
+		if err != nil {
+			return
+		}
+		// abstract the STORED coordinates (NewPoint cuts the latitude to 1e-10 degrees)
+		W, ok := latCell(p.Lat(), K)
+		if !ok {
+			return
+		}
+		m := Pt{K: k, KA: ka}
+		m.U = lonCell(p.Lon(), K) - shl(w.X0, k)
+		m.W = W - shl(w.Y0, k)
+		m.A = altCell(p.Alt(), KA) - shl(w.F0, ka)
+		if p.Lon() == 180 {
+			m.U = int64(1)<<uint(K) - shl(w.X0, k) // the east edge itself
+		}
+		// the row must be one the model decides (a quarter row away from the borders of zoom h)
+		cell := int64(1) << uint(k-h)
+		if rr := ((m.W % cell) + cell) % cell; 4*rr < cell || 4*rr > 3*cell {
+			return
+		}
+		if abs64(m.U) >= farLimit || abs64(m.W) >= farLimit || abs64(m.A) >= farLimit {
+			return
+		}
+		pts[i], ps[i], desc[i] = p, m, hexTriple(p.Lon(), p.Lat(), p.Alt())
+	}
+	before := pointBits(pts)
+	o, res := guard(func() (any, error) { return shape.GetExtendedSpatialIdsOnPoints(pts, w.H0+h, w.V0+v) })
+	e := w.ev("PointsExt", map[string]any{"pts": ptsArr(ps), "h": h, "v": v})
+	e.O, e.Real = o, map[string]any{"pts": desc, "h": w.H0 + h, "v": w.V0 + v, "given": fmt.Sprint(lons, lats, alts)}
+	e.R = []any{}
+	if o != "panic" {
+		e.R = w.projExtList(strs(res), &e.Bad)
+	} else {
+		e.Bad = "panic"
+	}
+	if pointBits(pts) != before {
+		e.Bad = pointsModified
+	}
+	t.Emit(e, true)
+}
+
+var specialLons = []float64{0, 1, -1, 10, 45, -45, 90, -90, 100, 135, -135, 139, 139.7, -0.5, 179, -179, -180, 60, -120, 30.48}
+var specialLats = []float64{0, 1, -1, 10, 35, 35.68, 45, -45, 60, -60, 80, 85, -85, 0.5, 66.5, 23.4}
+var specialAlts = []float64{0, 0.5, -0.5, 1, 10, 30.48, 100, 304.8, 1000, -10, 8848, 0.3048, 152.4, 12.5}
+var hairs = []float64{0, 0, 1e-12, -1e-12, 1e-10, -1e-10, 1e-9, -1e-9, 1e-8, -1e-8, 1e-7, -1e-7, 1e-6, -1e-6, 1e-5, -1e-4, 1e-3}
+
+func (r Rng) realCoord3() (lon, lat, alt float64) {
+	dec := func(lo, hi float64, d int) float64 {
+		p := math.Pow(10, float64(d))
+		return math.Round((lo+r.Float64()*(hi-lo))*p) / p
+	}
+	switch r.Intn(3) {
+	case 0: // data with few decimals
+		d := r.Intn(8)
+		lon, lat = dec(-180, 180, d), dec(-85, 85, d)
+		alt = float64(r.In(-200, 20000)) * []float64{1, 0.5, 0.1, 0.25, 0.3048}[r.Intn(5)]
+	case 1: // a hair beside special values
+		lon = specialLons[r.Intn(len(specialLons))] + hairs[r.Intn(len(hairs))]
+		lat = specialLats[r.Intn(len(specialLats))] + hairs[r.Intn(len(hairs))]
+		alt = specialAlts[r.Intn(len(specialAlts))] + hairs[r.Intn(len(hairs))]*1000
+	default: // mixed
+		lon = specialLons[r.Intn(len(specialLons))] + hairs[r.Intn(len(hairs))]
+		lat = dec(-85, 85, r.Intn(7))
+		alt = specialAlts[r.Intn(len(specialAlts))]
+	}
+	if lon < -180 {
+		lon = -180
+	}
+	return
+}
+
+func driveRealPoints(t *Tracer, r Rng, n int) {
+	for i := 0; i < n; i++ {
+		lon, lat, alt := r.realCoord3()
+		H0, V0 := int64(0), int64(0)
+		if r.Chance(0.6) {
+			H0, V0 = r.In(6, 30), r.In(0, 30)
+		}
+		w, ok := windowAt(lon, lat, alt, H0, V0)
+		if !ok {
+			continue
+		}
+		hmax, vmax := int64(24), int64(24)
+		if !w.Abs {
+			hmax, vmax = minI(35-H0, 24), minI(35-V0, 24)
+		}
+		h, v := r.In(0, hmax), r.In(0, vmax)
+		lons, lats, alts := []float64{lon}, []float64{lat}, []float64{alt}
+		for k := r.Intn(3); k > 0; k-- { // a few more points nearby, so that list order is exercised too
+			lons = append(lons, lon+hairs[r.Intn(len(hairs))])
+			lats = append(lats, lat+hairs[r.Intn(len(hairs))])
+			alts = append(alts, alt+hairs[r.Intn(len(hairs))]*1000)
+		}
+		evPointsReal(t, w, lons, lats, alts, h, v)
+	}
+}
+
+func init() { families["realpoints"] = driveRealPoints }
